@@ -40,12 +40,17 @@ FirstOf(x, set) == LET S == {i \in 1..Len(x) : x[i] \in set} IN IF S = {} THEN L
 IsPrefixSeq(a, b) == Len(a) <= Len(b) /\ SubSeq(b, 1, Len(a)) = a
 
 (* origin-form target: path [ "?" query ] [ "#" fragment ] *)
-OriginForm(t) == Len(t) > 0 /\ t[1] = 47 /\ ~(Len(t) > 1 /\ t[2] = 47)
+OriginForm(t) == Len(t) > 0 /\ t[1] = 47
 RawPath(t) == Slice(t, 1, FirstOf(t, {63, 35}) - 1)
 RawQuery(t) == LET q == FirstOf(t, {63}) h == FirstOf(t, {35})
                IN IF q > Len(t) \/ q > h THEN <<>> ELSE Slice(t, q + 1, h - 1)
+(* the server deliberately collapses a run of slashes at the beginning of the decoded path into one, before the
+   url_prefix is split off ("//evil.example/" must not look like a network-path reference to the application) *)
+RECURSIVE LStripSlash(_)
+LStripSlash(x) == IF Len(x) > 0 /\ x[1] = 47 THEN LStripSlash(Tail(x)) ELSE x
 PathInfo(t, prefix) ==
-  LET p == PctDecode(RawPath(t), 1)
+  LET d == PctDecode(RawPath(t), 1)
+      p == IF Len(d) > 0 /\ d[1] = 47 THEN <<47>> \o LStripSlash(d) ELSE d
   IN IF prefix = <<>> THEN p
      ELSE IF p = prefix THEN <<>>
      ELSE IF IsPrefixSeq(prefix \o <<47>>, p) THEN Slice(p, Len(prefix) + 1, Len(p))
